@@ -464,6 +464,11 @@ func c12Check(r *verifmc.Report, cnt *c11Counts, t *ref.C11Type, input []byte, m
 			shape = "truncated-input-zero-filled"
 		}
 		sig = "Decode:accepts:" + shape + "@" + c12LeafGroup(derr.Leaf)
+		if derr.InArr {
+			// a fixed-size array is decoded element by element (no length prefix, no decodeBytes):
+			// a shape of its own, not the listed byte-string one
+			sig += "-in-array"
+		}
 	case derr != nil && derr.Class == "map-keys-not-strictly-ascending":
 		switch c12MapShape(t, input) {
 		case "unsorted":
